@@ -4,7 +4,16 @@ import numpy as np
 from .elgen import CHAN_POOL, Regs, marker_rle
 
 ID = "C15"
-ALLOWED_AXIOMS = []
+ALLOWED_AXIOMS = ["ClassicalDedekindReals.sig_forall_dec", "ClassicalDedekindReals.sig_not_dec",
+                  "FunctionalExtensionality.functional_extensionality_dep"]      # the real-number part (Props/C14n.v) only
+PROPS_FILES = ["C15", "C14n"]
+T_GEN = ["OutputGuardsGen.v"]
+T_FILES = ["Generated/OutputGuardsGen", "Numeric/Rescale", "Props/C14n"]
+
+
+def search_failing_input(ctx):
+    return []          # the generated cases below are the search: their oracle failures are reported with the input
+
 RULE = ("consistent sequences of 1-3 positions and 1-3 channels whose waveforms have 2400..2600 points (and some with "
         "2399), blueprints of constant/ramp segments and raw arrays, dyadic amplitudes, peaks inside / exactly at / just "
         "outside +-amplitude/2, sequencing values around every AWG70000A boundary (wait and event input -1..4, "
